@@ -264,6 +264,7 @@ def cases(tier, seed):
     npool = len(names_pool())
     for i in range(npool):
         out.append({"k": "namesrow", "i": i})
+    out.append({"k": "twins"})
     for (sa, sb) in space.broadcastable_pairs(space.SHAPES):
         out.append({"k": "shapes", "a": list(sa), "b": list(sb)})
     for shape in space.SHAPES:
@@ -348,6 +349,16 @@ def run_case(case, R, extra_check=None):
             for op in BINOPS:
                 judge(R, {"op": op, "x": [a, P(b)]}, op, extra_check)
         R.sample({"pair": [short(a), short(P(pool[-1]))]})
+    elif k == "twins":
+        # colliding inputs (same exponent bytes in another layout, same table under other names ...) combined one after
+        # the other in one process: a result computed from state left behind by an earlier call disagrees with the model
+        seq = space.twin_sequence()
+        for i, (sa_, sb_) in enumerate(zip(seq, seq[1:] + seq[:1])):
+            R.state(("twins", i))
+            for op in BINOPS:
+                judge(R, {"op": op, "x": [P(sa_), P(sb_)]}, op, extra_check)
+            judge(R, {"op": "pow", "x": [P(sa_), {"s": 2}]}, "pow", extra_check)
+            judge(R, {"op": "neg", "x": [P(sa_)]}, "neg", extra_check)
     elif k == "shapes":
         sa, sb = tuple(case["a"]), tuple(case["b"])
         R.state(("shapes", sa, sb))
